@@ -133,6 +133,10 @@ def _crystals():
         'fcc-bct': (lambda a: mk(am.Box.tetragonal(a / math.sqrt(2), a), bcc), [(0.85, 12, (3, 3, 2))], (4, 4, 3)),
         'fcc-111': (lambda a: mk(am.Box.cubic(a), fcc).rotate([[1, 1, -2], [1, 1, 1], [-1, 1, 0]]),
                     [(0.85, 12, (1, 1, 2))], (2, 2, 3)),
+        # primitive rhombohedral cells (triclinic boxes: all three tilt factors non-zero)
+        'fcc-prim': (lambda a: mk(am.Box.trigonal(a / math.sqrt(2), 60.0), [[0, 0, 0]]), [(0.85, 12, (4, 4, 4))], (4, 4, 4)),
+        'bcc-prim': (lambda a: mk(am.Box.trigonal(a * math.sqrt(3) / 2, 109.47122063449069), [[0, 0, 0]]),
+                     [(0.93, 8, (3, 3, 3)), (1.2, 14, (4, 4, 4))], (4, 4, 4)),
     }
 
 
@@ -155,7 +159,109 @@ def _reference(rng, name=None, dyadic=False):
         size = tuple(size)
         shells = [(cutf, coordn)]
     s0 = build(a).supersize(*size)
+    if rng.random() < (0.35 if dyadic else 0.45):
+        sh = _shear(rng, s0, size, shells[0][0] * a, grid=64 if dyadic else None)
+        if sh is not None:
+            s0, tag = sh
+            name = name + '/sheared' + tag
     return s0, name, a, shells, size
+
+
+def _widths(vects, np):
+    """perpendicular widths of the cell along its three periodic directions."""
+    return 1.0 / np.linalg.norm(np.linalg.inv(vects), axis=0)
+
+
+def _shear(rng, s0, size, cut, grid=None):
+    """the same crystal held in a strongly tilted (non-orthogonal / differently tilted) supercell: b and c get whole
+    unit-cell vectors added (b' = b + m1 a_u, c' = c + m2 a_u + m3 b_u), the largest tilts inside the LAMMPS limits
+    preferred; atoms wrapped into the new cell.  None when no admissible shear keeps the periodic widths above twice
+    the cutoff."""
+    np = _np()
+    import atomman as am
+    V = s0.box.vects
+    u = [V[i] / size[i] for i in range(3)]
+    cands = []
+    for m1 in range(-size[0], size[0] + 1):
+        for m2 in range(-size[0], size[0] + 1):
+            for m3 in range(-size[1], size[1] + 1):
+                W = V.copy()
+                W[1] = V[1] + m1 * u[0]
+                W[2] = V[2] + m2 * u[0] + m3 * u[1]
+                if np.abs(W - V).max() < 1e-9:
+                    continue
+                lx, ly = W[0, 0], W[1, 1]
+                if abs(W[1, 0]) > 0.5 * lx * (1 + 1e-9) or abs(W[2, 0]) > 0.5 * lx * (1 + 1e-9) \
+                        or abs(W[2, 1]) > 0.5 * ly * (1 + 1e-9):
+                    continue
+                if (_widths(W, np) <= 2.05 * cut).any():
+                    continue
+                cands.append(((abs(W[1, 0]) / lx + abs(W[2, 0]) / lx + abs(W[2, 1]) / ly), (m1, m2, m3), W))
+    if not cands:
+        return None
+    cands.sort(key=lambda c: (-c[0], c[1]))
+    _, m, W = cands[rng.randrange(min(len(cands), 6))] if rng.random() < 0.7 else cands[rng.randrange(len(cands))]
+    s = am.System(atoms=am.Atoms(atype=s0.atoms.atype, pos=s0.atoms.pos.copy()), box=am.Box(vects=W, origin=s0.box.origin),
+                  pbc=s0.pbc, symbols=s0.symbols)
+    s.wrap()
+    if grid is not None and np.abs(s.atoms.pos * grid - np.rint(s.atoms.pos * grid)).max() != 0:
+        return None                   # (the exact regime needs the wrapped positions on the dyadic grid)
+    return s, '(%d,%d,%d)' % m
+
+
+def _mi(V, pbc, d, np):
+    """TRUE nearest periodic image of every row of `d`: exhaustive search over all lattice vectors n.V (n integer,
+    zero on non-periodic axes) inside the radius that C02.search_radius_images proves sufficient
+    (n_i^2 <= 4 |e|^2 |recip_i|^2 around the rounded image e).  Returns (image (m,3), n (m,3) relative to the raw
+    difference, decided (m,) : the minimum is unique by a relative margin of 1e-7)."""
+    d = np.atleast_2d(np.asarray(d, dtype=float))
+    per = np.array([bool(x) for x in pbc])
+    m = len(d)
+    if not per.any() or m == 0:
+        return d.copy(), np.zeros((m, 3), dtype=int), np.ones(m, dtype=bool)
+    inv = np.linalg.inv(V)
+    n0 = np.where(per[None, :], -np.rint(d @ inv), 0.0)
+    e = d + n0 @ V
+    rec = np.linalg.norm(inv, axis=0)
+    emax = math.sqrt(float((e ** 2).sum(1).max()))
+    R = [max(1, int(math.floor(2 * emax * rec[i] * (1 + 1e-9)))) if per[i] else 0 for i in range(3)]
+    capped = any(r > 4 for r in R)
+    R = [min(r, 4) for r in R]
+    S = np.array([[x, y, z] for x in range(-R[0], R[0] + 1) for y in range(-R[1], R[1] + 1)
+                  for z in range(-R[2], R[2] + 1)], dtype=float)
+    SV = S @ V
+    best = np.empty((m, 3))
+    nst = np.empty((m, 3), dtype=int)
+    dec = np.empty(m, dtype=bool)
+    for lo in range(0, m, 512):
+        c = e[lo:lo + 512, None, :] + SV[None, :, :]
+        n2 = (c ** 2).sum(2)
+        k = n2.argmin(1)
+        r = np.arange(len(k))
+        b2 = n2[r, k]
+        n2[r, k] = np.inf
+        second = n2.min(1)
+        best[lo:lo + 512] = c[r, k]
+        nst[lo:lo + 512] = np.rint(n0[lo:lo + 512] + S[k]).astype(int)
+        dec[lo:lo + 512] = second > b2 * (1 + 1e-7) + 1e-12
+    if capped:
+        dec[:] = False
+    return best, nst, dec
+
+
+def _ws_reach(V, pbc, e, np):
+    """distance from the origin to the Wigner-Seitz boundary of the periodic lattice along the unit vector e
+    (inf when no lattice vector has a component along e)."""
+    best = float('inf')
+    rr = [(-2, -1, 0, 1, 2) if p else (0,) for p in pbc]
+    for x in rr[0]:
+        for y in rr[1]:
+            for z in rr[2]:
+                L = x * V[0] + y * V[1] + z * V[2]
+                pr = float(np.dot(e, L))
+                if pr > 1e-9:
+                    best = min(best, float(np.dot(L, L)) / (2 * pr))
+    return best
 
 
 def _system(s0, pos, vects=None, pbc=None, origin=None):
@@ -240,10 +346,17 @@ def _stable(s0, pbc, nl, du, np):
 
 
 def _slip_case(rng, s0, a, dyadic, shells):
-    """half-crystal rigid slip.  returns dict(axis, mid, side, uA, uB, du, pbc, cutoff, nl0, mode) or None."""
+    """half-crystal rigid slip.  returns dict(axis, mid, side, uA, uB, du, pbc, cutoff, nl0, mode, stable, nlkind) or None.
+    Periodicity: all / off along the normal / off along an in-plane direction / none / one in-plane direction only
+    (per-atom coordination then varies, down to 1 at corners).  Neighbour list: the cutoff's, its half list (j > i:
+    coordination down to 0) or a randomly thinned one.  Modes: small slips inside the no-image-flip regime
+    (`stable`), and `large`: the upper half moved to a fraction 0.8 .. 1.04 of the Wigner-Seitz boundary of the
+    periodic lattice (expected values then come from the true-nearest-image oracle)."""
     np = _np()
+    import atomman as am
     pos0 = s0.atoms.pos
     vects = s0.box.vects
+    n = s0.natoms
     # slip-plane normal: a Cartesian axis along which exactly one box vector has a component
     axes = [k for k in range(3) if sum(1 for v in vects if abs(v[k]) > 1e-9) == 1]
     axis = rng.choice(axes)
@@ -252,15 +365,72 @@ def _slip_case(rng, s0, a, dyadic, shells):
     k = rng.randrange(1, len(lv) - 2) if len(lv) > 3 else 0
     mid = lv[k] + rng.choice([0.5, 0.25, 0.75, 0.5]) * (lv[k + 1] - lv[k])
     side = pos0[:, axis] > mid
+    inpl = [i for i in range(3) if i != bv]
+    r = rng.random()
     pbc = [True, True, True]
-    if rng.random() < 0.5:
+    if r < 0.3:
+        pass
+    elif r < 0.55:
         pbc[bv] = False
+    elif r < 0.7:
+        pbc[rng.choice(inpl)] = False
+    elif r < 0.85:
+        pbc = [False, False, False]
+    else:
+        pbc = [False, False, False]
+        pbc[rng.choice(inpl)] = True
     pbc = tuple(pbc)
     q = 16 if dyadic else 1000
-    mode = rng.choice(['upper', 'both', 'lower', 'upper-normal'])
+    mode = rng.choice(['upper', 'both', 'lower', 'upper-normal', 'large', 'large'])
     cut = rng.choice(shells)[0] * a
     s0.pbc = pbc
-    nl0 = s0.neighborlist(cutoff=cut)
+    nlc = s0.neighborlist(cutoff=cut)
+    nlkind = rng.choice(['cutoff', 'cutoff', 'half', 'thin'])
+    nl0 = nlc
+    if nlkind != 'cutoff':
+        lists = [[int(j) for j in nlc[i]] for i in range(n)]
+        if nlkind == 'half':
+            lists = [[j for j in l if j > i] for i, l in enumerate(lists)]
+        else:
+            keep = [rng.choice([0.0, 0.3, 0.6, 1.0]) for _ in range(n)]
+            lists = [[j for j in l if rng.random() < keep[i]] for i, l in enumerate(lists)]
+        if any(lists):
+            nl0 = _mk_nlist(am, s0, lists)
+        else:
+            nlkind = 'cutoff'
+    out = {'axis': axis, 'mid': float(mid), 'side': side, 'pbc': pbc, 'mode': mode, 'cutoff': cut, 'nl0': nl0, 'bv': bv,
+           'nlkind': nlkind}
+    if mode == 'large':
+        ip = [k for k in range(3) if k != axis]
+        how = rng.randrange(4)
+        e = np.zeros(3)
+        if how == 0:
+            th = rng.uniform(0, 2 * math.pi)
+            e[ip[0]], e[ip[1]] = math.cos(th), math.sin(th)
+        else:
+            w = np.array(vects[rng.choice(inpl)], dtype=float)
+            w[axis] = 0.0
+            if how == 1:                                   # in-plane, perpendicular to a box vector
+                w = np.cross(w, np.eye(3)[axis])
+            elif how == 2:                                 # between two box vectors
+                w2 = np.array(vects[inpl[0]] + vects[inpl[1]], dtype=float)
+                w2[axis] = 0.0
+                w = w2
+            e = w / np.linalg.norm(w) * rng.choice([1, -1])
+        reach = _ws_reach(vects, pbc, e, np)
+        if not math.isfinite(reach):
+            reach = 0.5 * float(np.abs(vects).max())
+        t = rng.choice([0.8, 0.9, 0.95, 0.98, 1.04])
+        uA = np.rint(t * reach * e * q) / q
+        uA[axis] = 0.0
+        uB = np.zeros(3)
+        if rng.random() < 0.3:
+            uB = np.array([rng.randint(-q // 4, q // 4) / q for _ in range(3)])
+            uB[axis] = 0.0
+        if not (uA - uB).any():
+            return None
+        out.update(uA=uA, uB=uB, du=np.where(side[:, None], uA, uB), stable=False, t=t)
+        return out
     scale = 0.45 * a
     for attempt in range(8):
         def vec(sc, inplane):
@@ -273,13 +443,13 @@ def _slip_case(rng, s0, a, dyadic, shells):
         if not (uA - uB).any():
             uA = uA + np.array([max(1, q // 8) / q if i != axis else 0.0 for i in range(3)])
         du = np.where(side[:, None], uA, uB)
-        if _stable(s0, pbc, nl0, du, np):
+        if _stable(s0, pbc, nlc, du, np):
             break
         scale /= 2
     else:
         return None
-    return {'axis': axis, 'mid': float(mid), 'side': side, 'uA': uA, 'uB': uB, 'du': du, 'pbc': pbc, 'mode': mode,
-            'cutoff': cut, 'nl0': nl0, 'bv': bv}
+    out.update(uA=uA, uB=uB, du=du, stable=True)
+    return out
 
 
 def _wrapshift(rng, s, np, frac=0.3):
@@ -378,7 +548,24 @@ def _mk_nlist(am, system, lists):
 # ----------------------------------------------------------------------------------------
 # correspondence
 # ----------------------------------------------------------------------------------------
+class _Raised:
+    """an exception raised by the implementation, as an observation."""
+    def __init__(self, e):
+        self.text = f'{type(e).__name__}: {e}'
+
+
+def _guard(f):
+    try:
+        return f()
+    except Exception as e:   # noqa
+        return _Raised(e)
+
+
 def _cmp(ctx, key, what, impl, out, exact, info, atol=1e-9):
+    if isinstance(impl, _Raised):
+        if not out.startswith('err:'):
+            ctx.disagree(key + ':raises', f'{what}: implementation raised {impl.text}, the model returns values', info)
+        return False
     if out.startswith('err:'):
         ctx.disagree(key + ':driver-error', f'{what}: model refused ({out})', info)
         return False
@@ -417,8 +604,14 @@ def _corr_slip_one(ctx, rng, ref, caseseed, it0, it, dyadic):
     n = s0.natoms
     info = {'op': 'corr-slip', 'caseseed': caseseed, 'it': it0, 'variant': it, 'crystal': name, 'a': a, 'size': list(size),
             'axis': sc['axis'], 'mid': sc['mid'], 'uA': sc['uA'].tolist(), 'uB': sc['uB'].tolist(),
-            'pbc': list(sc['pbc']), 'cutoff': cut, 'dyadic': dyadic}
-    canon = (name, a, size, sc['axis'], sc['mid'], tuple(sc['uA']), tuple(sc['uB']), sc['pbc'], cut, it % 4 >= 2)
+            'pbc': list(sc['pbc']), 'cutoff': cut, 'dyadic': dyadic, 'mode': sc['mode'], 'nlist': sc['nlkind'],
+            'box': s0.box.vects.tolist()}
+    canon = (name, a, size, sc['axis'], sc['mid'], tuple(sc['uA']), tuple(sc['uB']), sc['pbc'], cut, it % 4 >= 2,
+             sc['nlkind'])
+    natural = sc['nlkind'] == 'cutoff'
+    ctx.extra['coord_min_seen'] = min(ctx.extra.get('coord_min_seen', 99), int(min(len(nl0[i]) for i in range(s0.natoms))))
+    if sc['mode'] == 'large':
+        ctx.extra['large_slips'] = ctx.extra.get('large_slips', 0) + 1
     exact = dyadic
     across = [i for i in range(n) if any(sc['side'][j] != sc['side'][i] for j in nl0[i])]
     sel = list(range(n)) if ctx.thorough else _select(rng, n, 20, across)
@@ -430,25 +623,53 @@ def _corr_slip_one(ctx, rng, ref, caseseed, it0, it, dyadic):
     _cmp(ctx, 'displacement', 'am.displacement (rigid slip)', am.displacement(s0, s1), out, exact, info)
     _cmp(ctx, 'displacement:initial', "am.displacement(box_reference='initial')",
          am.displacement(s0, s1, box_reference='initial'), out, exact, info)
+    if it % 3 == 1:
+        # the two systems with DIFFERENT periodicity flags: 'final' takes system_1's, 'initial' system_0's
+        p2 = list(sc['pbc'])
+        kf = rng.randrange(3)
+        p2[kf] = not p2[kf]
+        s1q = _system(s0, s1.atoms.pos, pbc=tuple(p2))
+        o1 = ctx.driver.ask(f'disp {_cell(s1q)} {n} {pos}')
+        ctx.stats.case('disp:pbc-differs', canon + (kf,))
+        _cmp(ctx, 'displacement:pbc', 'am.displacement (system_1 with other pbc flags, final)', am.displacement(s0, s1q), o1,
+             exact, dict(info, pbc1=p2))
+        _cmp(ctx, 'displacement:pbc', "am.displacement (system_1 with other pbc flags, box_reference='initial')",
+             am.displacement(s0, s1q, box_reference='initial'), out, exact, dict(info, pbc1=p2))
+        o2 = ctx.driver.ask(f'dd {_cell(s0)} {_cell(s1q)} {n} {pos} {nlt} {_sel_tokens(sel)}')
+        offs_ = np.concatenate([[0], np.cumsum([len(nl0[i]) for i in range(n)])])
+        rows_ = np.concatenate([np.arange(offs_[i], offs_[i + 1]) for i in sel]).astype(int)
+        _cmp(ctx, 'ddvectors:pbc', 'DifferentialDisplacement (systems with different pbc flags).ddvectors',
+             _guard(lambda: am.defect.DifferentialDisplacement(s0, s1q, neighbors=nl0, reference=0).ddvectors[rows_]), o2,
+             exact, dict(info, pbc1=p2))
     # slip vector: via neighbors= and via cutoff= (the list must be system_0's) -----------
     out = ctx.driver.ask(f'slip {_cell(s0)} {n} {pos} {nlt} {_sel_tokens(sel)}')
     ctx.stats.case('slip', canon, sample=info)
-    _cmp(ctx, 'slip_vector', 'slip_vector(neighbors=)', am.defect.slip_vector(s0, s1, neighbors=nl0)[sel], out, exact, info)
-    _cmp(ctx, 'slip_vector:cutoff', 'slip_vector(cutoff=)', am.defect.slip_vector(s0, s1, cutoff=cut)[sel], out, exact, info)
+    _cmp(ctx, 'slip_vector', 'slip_vector(neighbors=)', _guard(lambda: am.defect.slip_vector(s0, s1, neighbors=nl0)[sel]),
+         out, exact, info)
+    if natural:
+        _cmp(ctx, 'slip_vector:cutoff', 'slip_vector(cutoff=)', _guard(lambda: am.defect.slip_vector(s0, s1, cutoff=cut)[sel]),
+             out, exact, info)
     # differential displacement -------------------------------------------------------------
     offs = np.concatenate([[0], np.cumsum([len(nl0[i]) for i in range(n)])])
     rows = np.concatenate([np.arange(offs[i], offs[i + 1]) for i in sel]).astype(int)
     out = ctx.driver.ask(f'dd {_cell(s0)} {_cell(s1)} {n} {pos} {nlt} {_sel_tokens(sel)}')
     ctx.stats.case('dd', canon, sample=info)
-    dd = am.defect.DifferentialDisplacement(s0, s1, neighbors=nl0, reference=0)
-    _cmp(ctx, 'ddvectors', 'DifferentialDisplacement(neighbors=, reference=0).ddvectors', dd.ddvectors[rows], out, exact, info)
-    dd = am.defect.DifferentialDisplacement(s0, s1, cutoff=cut, reference=0)
-    if len(dd.ddvectors) != offs[-1]:
-        ctx.disagree('ddvectors:cutoff', 'DifferentialDisplacement(cutoff=, reference=0): number of pairs differs from '
-                     'system0\'s neighbour list', info)
+    ddv = _guard(lambda: am.defect.DifferentialDisplacement(s0, s1, neighbors=nl0, reference=0).ddvectors)
+    if not isinstance(ddv, _Raised) and len(ddv) != offs[-1]:
+        ctx.disagree('ddvectors', f'DifferentialDisplacement(neighbors=, reference=0): {len(ddv)} pair vectors, the list has '
+                     f'{int(offs[-1])} pairs', info)
     else:
-        _cmp(ctx, 'ddvectors:cutoff', 'DifferentialDisplacement(cutoff=, reference=0).ddvectors', dd.ddvectors[rows], out, exact, info)
-    if it % 3 == 0 and it % 4 < 2:      # (lists are only built for systems whose atoms are inside the box)
+        _cmp(ctx, 'ddvectors', 'DifferentialDisplacement(neighbors=, reference=0).ddvectors',
+             ddv if isinstance(ddv, _Raised) else ddv[rows], out, exact, info)
+    if natural:
+        ddv = _guard(lambda: am.defect.DifferentialDisplacement(s0, s1, cutoff=cut, reference=0).ddvectors)
+        if not isinstance(ddv, _Raised) and len(ddv) != offs[-1]:
+            ctx.disagree('ddvectors:cutoff', 'DifferentialDisplacement(cutoff=, reference=0): number of pairs differs from '
+                         'system0\'s neighbour list', info)
+        else:
+            _cmp(ctx, 'ddvectors:cutoff', 'DifferentialDisplacement(cutoff=, reference=0).ddvectors',
+                 ddv if isinstance(ddv, _Raised) else ddv[rows], out, exact, info)
+    if natural and it % 3 == 0 and it % 4 < 2:      # (lists are only built for systems whose atoms are inside the box)
         nl1 = s1.neighborlist(cutoff=cut)
         offs1 = np.concatenate([[0], np.cumsum([len(nl1[i]) for i in range(n)])])
         rows1 = np.concatenate([np.arange(offs1[i], offs1[i + 1]) for i in sel]).astype(int)
@@ -760,6 +981,25 @@ def _search_slip(ctx, caseseed, it, reps=3):
         _search_slip_one(ctx, rng, ref, caseseed, it, it * reps + rep, dyadic)
 
 
+def _pairs(nl, n, np):
+    I = np.concatenate([np.full(len(nl[i]), i, dtype=int) for i in range(n)]) if n else np.zeros(0, dtype=int)
+    J = np.concatenate([np.asarray(nl[i], dtype=int) for i in range(n)]) if n else np.zeros(0, dtype=int)
+    return I, J
+
+
+def _expect_pairs(s0, s1, cell1, nl, np):
+    """exact expectation for every neighbour pair from the true-nearest-image oracle: (I, J, dd rows, decided rows)
+    with dd = MI_1(x1_j - x1_i) - MI_0(x0_j - x0_i); `cell1` = (vects, pbc) used for system_1's separation.
+    A row is decided when both minima are unique by a margin and lie within one box vector per direction of the raw
+    difference (the range the property's 'through the periodic boundaries' covers)."""
+    n = s0.natoms
+    I, J = _pairs(nl, n, np)
+    d0, n0, u0 = _mi(s0.box.vects, s0.pbc, s0.atoms.pos[J] - s0.atoms.pos[I], np)
+    d1, n1, u1 = _mi(cell1[0], cell1[1], s1.atoms.pos[J] - s1.atoms.pos[I], np)
+    ok = u0 & u1 & (np.abs(n0) <= 1).all(1) & (np.abs(n1) <= 1).all(1)
+    return I, J, d1 - d0, ok
+
+
 def _search_slip_one(ctx, rng, ref, caseseed, it0, it, dyadic):
     np = _np()
     import atomman as am
@@ -770,6 +1010,7 @@ def _search_slip_one(ctx, rng, ref, caseseed, it0, it, dyadic):
     n = s0.natoms
     s0.pbc = sc['pbc']
     du, side, cut, nl0 = sc['du'], sc['side'], sc['cutoff'], sc['nl0']
+    natural = sc['nlkind'] == 'cutoff'
     s1 = _system(s0, s0.atoms.pos + du, pbc=sc['pbc'])
     wrapped = it % 2 == 1
     if wrapped:
@@ -777,46 +1018,123 @@ def _search_slip_one(ctx, rng, ref, caseseed, it0, it, dyadic):
     L = max(1.0, float(np.abs(s0.box.vects).max()))
     tol = 0.0 if dyadic else 1e-9 * L
     base = {'op': 'search-slip', 'caseseed': caseseed, 'it': it0, 'variant': it, 'crystal': name, 'a': a, 'size': list(size),
-            'pbc': list(sc['pbc']), 'normal_axis': sc['axis'], 'plane': sc['mid'], 'u_above': sc['uA'].tolist(),
-            'u_below': sc['uB'].tolist(), 'cutoff': cut, 'wrapped': wrapped}
-    canon = (name, a, size, sc['axis'], sc['mid'], tuple(sc['uA']), tuple(sc['uB']), sc['pbc'], cut, wrapped)
-    ctx.stats.case('oracle:slip', canon, sample=base)
-    # expectations (the float positions pos0 + u are exact in the dyadic regime) ---------------
-    exp_disp = du
+            'box': s0.box.vects.tolist(), 'pbc': list(sc['pbc']), 'normal_axis': sc['axis'], 'plane': sc['mid'],
+            'u_above': sc['uA'].tolist(), 'u_below': sc['uB'].tolist(), 'cutoff': cut, 'wrapped': wrapped, 'mode': sc['mode'],
+            'nlist': sc['nlkind']}
+    canon = (name, a, size, sc['axis'], sc['mid'], tuple(sc['uA']), tuple(sc['uB']), sc['pbc'], cut, wrapped, sc['nlkind'])
+    ctx.stats.case('oracle:slip' + (':large' if sc['mode'] == 'large' else ''), canon, sample=base)
+    coordn = np.array([len(nl0[i]) for i in range(n)])
+    for c_ in (0, 1):
+        if (coordn == c_).any():
+            ctx.extra[f'oracle_atoms_with_{c_}_neighbours'] = ctx.extra.get(f'oracle_atoms_with_{c_}_neighbours', 0) + int((coordn == c_).sum())
+    # expectations -----------------------------------------------------------------------------------------
+    # the imposed displacement taken through the periodic boundaries = its true nearest image (exhaustive lattice
+    # search); inside the no-image-flip regime that is the imposed vector itself and the rigid-slip formulas hold
+    # literally (cross-checked here), outside it the same exact oracle gives the expected value.
+    V, pb = s0.box.vects, sc['pbc']
+    mi_disp, nst, dec_disp = _mi(V, pb, s1.atoms.pos - s0.atoms.pos, np)
+    dec_disp &= (np.abs(nst) <= 1).all(1)
+    mi_dec = dec_disp.copy()
+    I, J, mi_dd, dec_dd = _expect_pairs(s0, s1, (V, pb), nl0, np)
     across = np.array([sum(1 for j in nl0[i] if side[j] != side[i]) for i in range(n)])
     rel = np.where(side[:, None], sc['uA'] - sc['uB'], sc['uB'] - sc['uA'])       # own half relative to the other
-    exp_slip = across[:, None] * rel
-    exp_dd = np.concatenate([du[nl0[i]] - du[i] for i in range(n) if len(nl0[i])])
+    if sc['stable']:
+        exp_disp = du
+        exp_dd = du[J] - du[I]
+        exp_slip = across[:, None] * rel
+        if np.abs(mi_disp - du)[dec_disp].max(initial=0.0) > 1e-9 * L or np.abs(mi_dd - exp_dd)[dec_dd].max(initial=0.0) > 1e-9 * L:
+            ctx.extra['oracle_selfcheck_mismatch'] = ctx.extra.get('oracle_selfcheck_mismatch', 0) + 1
+        dec_disp = np.ones(n, dtype=bool)
+        dec_dd = np.ones(len(I), dtype=bool)
+    else:
+        exp_disp = mi_disp
+        exp_dd = mi_dd
+        exp_slip = np.zeros((n, 3))
+        np.subtract.at(exp_slip, I, exp_dd)
+        ctx.extra['oracle_undecided_pairs'] = ctx.extra.get('oracle_undecided_pairs', 0) + int((~dec_dd).sum())
+        ctx.extra['oracle_images_beyond_rhombus'] = ctx.extra.get('oracle_images_beyond_rhombus', 0) + int(
+            (np.abs(np.rint((s1.atoms.pos - s0.atoms.pos) @ np.linalg.inv(V)) + nst).sum(1) > 0).sum())
+    dec_slip = np.ones(n, dtype=bool)
+    np.logical_and.at(dec_slip, I, dec_dd)
 
     def fail(key, what, i=None, **kw):
         ctx.violate(key, what, dict(base, atom=i, **kw))
+
+    def bad(impl, want, tol_, dec):
+        impl = np.asarray(impl, dtype=float)
+        if impl.shape != np.asarray(want).shape:
+            return -1
+        if not dec.any():
+            return None
+        idx = np.where(dec)[0]
+        k = _bad(impl[idx], np.asarray(want)[idx], tol_)
+        return None if k is None else int(idx[k])
     # displacement ----------------------------------------------------------------------------
-    for ref in ('final', 'initial'):
-        d = am.displacement(s0, s1, box_reference=ref)
-        k = _bad(d, exp_disp, tol)
+    for bref in ('final', 'initial'):
+        d = _guard(lambda: am.displacement(s0, s1, box_reference=bref))
+        if isinstance(d, _Raised):
+            fail('displacement:raises', f'displacement(box_reference={bref!r}) raised {d.text}')
+            continue
+        k = bad(d, exp_disp, tol, dec_disp)
         if k is not None:
-            fail('displacement', f'displacement(box_reference={ref!r}) of atom {k} is {d[k].tolist()}, imposed '
-                 f'{exp_disp[k].tolist()} ({name} {size}, rigid slip{", atoms moved by box vectors" if wrapped else ""})', k)
+            fail('displacement', f'displacement(box_reference={bref!r}) of atom {k} is {d[k].tolist() if k >= 0 else d.shape}, the '
+                 f'imposed displacement taken through the periodic boundaries is {exp_disp[max(k, 0)].tolist()} ({name} {size}, '
+                 f'box {np.round(V, 6).tolist()}, pbc {list(pb)}, rigid slip {sc["uA"].tolist()} / {sc["uB"].tolist()}'
+                 f'{", atoms moved by box vectors" if wrapped else ""})', k)
     # slip vector -----------------------------------------------------------------------------
-    for how, kw in (('neighbors=', {'neighbors': nl0}), ('cutoff=', {'cutoff': cut})):
-        sv = am.defect.slip_vector(s0, s1, **kw)
-        k = _bad(sv, exp_slip, tol * 20)
+    for how, kw in (('neighbors=', {'neighbors': nl0}),) + ((('cutoff=', {'cutoff': cut}),) if natural else ()):
+        sv = _guard(lambda: am.defect.slip_vector(s0, s1, **kw))
+        if isinstance(sv, _Raised):
+            fail('slip_vector:raises', f'slip_vector({how}) raised {sv.text} (coordination {int(coordn.min())}..{int(coordn.max())})')
+            continue
+        k = bad(sv, exp_slip, tol * 20, dec_slip)
         if k is not None:
-            fail('slip_vector', f'slip_vector({how}) of atom {k} is {sv[k].tolist()}, expected {int(across[k])} neighbours '
-                 f'across x (own - other half displacement {rel[k].tolist()}) = {exp_slip[k].tolist()}', k)
+            fail('slip_vector', f'slip_vector({how}) of atom {k} is {sv[k].tolist() if k >= 0 else sv.shape}, expected '
+                 f'{int(across[max(k, 0)])} neighbours across x (own - other half displacement {rel[max(k, 0)].tolist()}) = '
+                 f'{exp_slip[max(k, 0)].tolist()} ({int(coordn[max(k, 0)])} neighbours in the list)', k)
     # differential displacement ---------------------------------------------------------------
-    for how, kw in (('neighbors=', {'neighbors': nl0}), ('cutoff=', {'cutoff': cut})):
-        dd = am.defect.DifferentialDisplacement(s0, s1, reference=0, **kw).ddvectors
+    for how, kw in (('neighbors=', {'neighbors': nl0}),) + ((('cutoff=', {'cutoff': cut}),) if natural else ()):
+        dd = _guard(lambda: am.defect.DifferentialDisplacement(s0, s1, reference=0, **kw).ddvectors)
+        if isinstance(dd, _Raised):
+            fail('ddvectors:raises', f'DifferentialDisplacement({how}, reference=0) raised {dd.text}')
+            continue
         if dd.shape != exp_dd.shape:
             fail('ddvectors', f'DifferentialDisplacement({how}, reference=0): {len(dd)} pair vectors, the reference '
                  f'neighbour list has {len(exp_dd)} pairs')
             continue
-        k = _bad(dd, exp_dd, tol * 2)
+        k = bad(dd, exp_dd, tol * 2, dec_dd)
         if k is not None:
-            fail('ddvectors', f'DifferentialDisplacement({how}, reference=0).ddvectors[{k}] = {dd[k].tolist()}, '
-                 f'difference of the imposed displacements {exp_dd[k].tolist()}', pair=k)
-    if it % 6 == 0:
+            fail('ddvectors', f'DifferentialDisplacement({how}, reference=0).ddvectors[{k}] (pair {int(I[k])}-{int(J[k])}, atom '
+                 f'{int(I[k])} has {int(coordn[I[k]])} neighbour(s)) = {dd[k].tolist()}, difference of the imposed displacements '
+                 f'{exp_dd[k].tolist()}', pair=k)
+    if it % 6 == 0 and sc['stable']:
         _search_ddplot(ctx, s0, s1, nl0, exp_dd, tol, base, np, am)
+    if it % 3 == 2:
+        # the two systems with different periodicity flags and different cells: every separation with its own system's
+        p2 = list(sc['pbc'])
+        kf = rng.randrange(3)
+        p2[kf] = not p2[kf]
+        s1q = _system(s0, s1.atoms.pos, pbc=tuple(p2))
+        e1, ns1, dc1 = _mi(V, p2, s1.atoms.pos - s0.atoms.pos, np)
+        dc1 &= (np.abs(ns1) <= 1).all(1)
+        d = _guard(lambda: am.displacement(s0, s1q))
+        k = -2 if isinstance(d, _Raised) else bad(d, e1, max(tol, 1e-12), dc1)
+        if k is not None:
+            fail('displacement:pbc', f'displacement(final) with system_1.pbc = {p2}, system_0.pbc = {list(pb)}: '
+                 f'{d.text if k == -2 else d[k].tolist()} for atom {k}, expected (system_1 flags) {e1[max(k, 0)].tolist()}', k, pbc1=p2)
+        d = _guard(lambda: am.displacement(s0, s1q, box_reference='initial'))
+        k = -2 if isinstance(d, _Raised) else bad(d, mi_disp, max(tol, 1e-12), mi_dec)
+        if k is not None:
+            fail('displacement:pbc', f"displacement(box_reference='initial') with system_1.pbc = {p2}, system_0.pbc = {list(pb)}: "
+                 f'{d.text if k == -2 else d[k].tolist()} for atom {k}, expected (system_0 flags) {mi_disp[max(k, 0)].tolist()}',
+                 k, pbc1=p2)
+        I2, J2, dd2, dc2 = _expect_pairs(s0, s1q, (V, tuple(p2)), nl0, np)
+        dd = _guard(lambda: am.defect.DifferentialDisplacement(s0, s1q, neighbors=nl0, reference=0).ddvectors)
+        k = -2 if isinstance(dd, _Raised) else bad(dd, dd2, max(tol * 2, 1e-12), dc2)
+        if k is not None:
+            fail('ddvectors:pbc', f'DifferentialDisplacement with system_1.pbc = {p2}, system_0.pbc = {list(pb)}: '
+                 f'{dd.text if k == -2 else (dd[k].tolist() if k >= 0 else dd.shape)}, expected each separation under its own '
+                 f"system's flags: {dd2[max(k, 0)].tolist()}", pair=k, pbc1=p2)
     # disregistry -------------------------------------------------------------------------------
     ax = sc['axis']
     mdir = rng.choice([k for k in range(3) if k != ax])
@@ -836,30 +1154,45 @@ def _search_slip_one(ctx, rng, ref, caseseed, it0, it, dyadic):
              m=m, n=nn, planepos=planepos)
         coord = None
     if coord is not None:
-        want = sc['uA'] - sc['uB']
+        # above minus below, each half's displacement taken through the periodic boundaries (= the slip itself
+        # whenever both lie inside the Wigner-Seitz cell)
+        ia = int(np.where(adj & side)[0][0])
+        ib = int(np.where(adj & ~side)[0][0])
+        want = exp_disp[ia] - exp_disp[ib]
         if len(coord) < len(exp_coord) or dis.shape != (len(coord), 3):
             fail('disregistry', f'disregistry returns {len(coord)} coordinates, the adjoining planes have {len(exp_coord)} columns',
                  m=m, n=nn, planepos=planepos)
             coord = None
-        else:
+        elif dec_disp[adj].all():
             k = _bad(dis, np.tile(want, (len(coord), 1)), tol * 2)
             if k is not None:
                 fail('disregistry', f'disregistry at coordinate {coord[k]} is {dis[k].tolist()}, the imposed slip '
-                     f'(upper - lower half) is {want.tolist()}', m=m, n=nn, planepos=planepos)
+                     f'(upper - lower half, through the periodic boundaries) is {want.tolist()}', m=m, n=nn, planepos=planepos)
     # invariance: joint translation -------------------------------------------------------------
+    # (entries whose nearest image is not decided by a margin are left out: rounding may pick the other image)
     tolt = 1e-9 * L
+    masks = {'displacement': dec_disp, 'slip_vector': dec_slip, 'ddvectors': dec_dd}
     t = np.array([rng.randint(-40, 40) / 8 for _ in range(3)])
     s0t = _system(s0, s0.atoms.pos + t, origin=s0.box.origin + t, pbc=sc['pbc'])
     s1t = _system(s0t, s1.atoms.pos + t, pbc=sc['pbc'])
-    res0 = (am.displacement(s0, s1), am.defect.slip_vector(s0, s1, neighbors=nl0),
-            am.defect.DifferentialDisplacement(s0, s1, neighbors=nl0, reference=0).ddvectors)
-    rest = (am.displacement(s0t, s1t), am.defect.slip_vector(s0t, s1t, neighbors=nl0),
-            am.defect.DifferentialDisplacement(s0t, s1t, neighbors=nl0, reference=0).ddvectors)
+    try:
+        res0 = (am.displacement(s0, s1), am.defect.slip_vector(s0, s1, neighbors=nl0),
+                am.defect.DifferentialDisplacement(s0, s1, neighbors=nl0, reference=0).ddvectors)
+        rest = (am.displacement(s0t, s1t), am.defect.slip_vector(s0t, s1t, neighbors=nl0),
+                am.defect.DifferentialDisplacement(s0t, s1t, neighbors=nl0, reference=0).ddvectors)
+    except Exception as e:   # noqa
+        fail('translation:raises', f'{type(e).__name__}: {e} when both systems are translated by {t.tolist()}',
+             translation=t.tolist())
+        return
     for nm, x, y in zip(('displacement', 'slip_vector', 'ddvectors'), res0, rest):
-        if x.shape != y.shape or np.abs(x - y).max() > tolt * 20:
-            fail('translation:' + nm, f'{nm} changes by {np.abs(x - y).max():.3e} when both systems (and the box) are '
+        mk = masks[nm]
+        if x.shape != y.shape or len(mk) != len(x):
+            fail('translation:' + nm, f'{nm}: result shape changes from {x.shape} to {y.shape} under a joint translation',
+                 translation=t.tolist())
+        elif mk.any() and np.abs(x - y)[mk].max() > tolt * 20:
+            fail('translation:' + nm, f'{nm} changes by {np.abs(x - y)[mk].max():.3e} when both systems (and the box) are '
                  f'translated by {t.tolist()}', translation=t.tolist())
-    if coord is not None:
+    if coord is not None and dec_disp[adj].all():
         pp = (np.array(planepos) + t).tolist()
         try:
             c2, d2 = am.defect.disregistry(s0t, s1t, m=m, n=nn, planepos=pp)
@@ -876,35 +1209,41 @@ def _search_slip_one(ctx, rng, ref, caseseed, it0, it, dyadic):
     s0p = _system(s0, s0.atoms.pos[inv], pbc=sc['pbc'])
     s0p.atoms.atype = s0.atoms.atype[inv]
     s1p = _system(s0p, s1.atoms.pos[inv], pbc=sc['pbc'])
-    nlp = s0p.neighborlist(cutoff=cut)
-    dp = am.displacement(s0p, s1p)
-    svp = am.defect.slip_vector(s0p, s1p, neighbors=nlp)
+    # the same list, renumbered
+    nlp = _mk_nlist(am, s0p, [[int(perm[j]) for j in nl0[int(inv[knew])]] for knew in range(n)])
+    try:
+        dp = am.displacement(s0p, s1p)
+        svp = am.defect.slip_vector(s0p, s1p, neighbors=nlp)
+        ddp = am.defect.DifferentialDisplacement(s0p, s1p, neighbors=nlp, reference=0).ddvectors
+    except Exception as e:   # noqa
+        fail('renumbering:raises', f'{type(e).__name__}: {e} after a consistent renumbering', perm=perm)
+        return
     d0, sv0, dd0 = res0
-    if np.abs(dp[perm] - d0).max() > tolt:
+    if dec_disp.any() and np.abs(dp[perm] - d0)[dec_disp].max() > tolt:
         fail('renumbering:displacement', 'displacement is not carried along with a consistent renumbering of both systems',
              perm=perm)
-    if np.abs(svp[perm] - sv0).max() > tolt * 20:
-        k = int(np.abs(svp[perm] - sv0).max(1).argmax())
+    if dec_slip.any() and np.abs(svp[perm] - sv0)[dec_slip].max() > tolt * 20:
+        k = int(np.where(dec_slip[:, None], np.abs(svp[perm] - sv0), 0).max(1).argmax())
         fail('renumbering:slip_vector', f'slip vector of atom {k} changes from {sv0[k].tolist()} to {svp[perm[k]].tolist()} '
              f'under a consistent renumbering', k, perm=perm)
-    ddp = am.defect.DifferentialDisplacement(s0p, s1p, neighbors=nlp, reference=0).ddvectors
     mp = {}
     r = 0
     for knew in range(n):
         for j in nlp[knew]:
-            mp[(int(inv[knew]), int(inv[j]))] = ddp[r]
+            mp[(int(inv[knew]), int(inv[j]))] = ddp[r] if r < len(ddp) else None
             r += 1
     r = 0
     worst = 0.0
     for i in range(n):
         for j in nl0[i]:
             v = mp.get((i, int(j)))
-            worst = max(worst, float('inf') if v is None else float(np.abs(v - dd0[r]).max()))
+            if r < len(dec_dd) and dec_dd[r]:
+                worst = max(worst, float('inf') if v is None or r >= len(dd0) else float(np.abs(v - dd0[r]).max()))
             r += 1
     if worst > tolt * 2:
         fail('renumbering:ddvectors', f'differential displacement of a pair changes by {worst:.3e} under a consistent renumbering',
              perm=perm)
-    if coord is not None:
+    if coord is not None and dec_disp[adj].all():
         try:
             c2, d2 = am.defect.disregistry(s0p, s1p, m=m, n=nn, planepos=planepos)
             if not _same_profile(coord, dis, c2, d2, tolt * 2, np):
